@@ -364,6 +364,10 @@ impl<B: Sym> HuffMachine<B> {
                 for s in &it {
                     *counts.entry(*s).or_insert(0) += 1;
                 }
+                // the donor needs the same alphabet, not the same (possibly huge) counts
+                for c in counts.values_mut() {
+                    *c = (*c).min(64);
+                }
                 let src = Self::source_from(&counts);
                 let mut donor = HuffmanContainer::merge_regions(std::iter::once(&src));
                 if let Some(f) = it.first() {
@@ -530,7 +534,8 @@ impl<B: Sym> Machine for HuffMachine<B> {
                 let syms: Vec<B> = self.g.code_counts.keys().cloned().collect();
                 let n = syms.len();
                 let vals: Vec<u64> = self.g.code_counts.values().cloned().collect();
-                let other: BTreeMap<B, u64> = syms.iter().enumerate().map(|(i, s)| (*s, vals[n - 1 - i] * vals[n - 1 - i] + i as u64)).collect();
+                // (capped: the destination only has to carry a *different* code, not a deep one)
+                let other: BTreeMap<B, u64> = syms.iter().enumerate().map(|(i, s)| (*s, vals[n - 1 - i].min(64) * vals[n - 1 - i].min(64) + i as u64)).collect();
                 let src = Self::source_from(&other);
                 let live = &self.g.c;
                 let r = guard(|| {
@@ -664,7 +669,7 @@ impl<B: Sym> Machine for HuffCmpMachine<B> {
             .counts
             .iter()
             .enumerate()
-            .map(|(i, (s, _))| (B::from_u16(*s), { let c = self.profile.counts[n - 1 - i].1; c * c + i as u64 }))
+            .map(|(i, (s, _))| (B::from_u16(*s), { let c = self.profile.counts[n - 1 - i].1.min(64); c * c + i as u64 }))
             .collect();
         let s1 = HuffMachine::<B>::source_from(&counts1);
         let s2 = HuffMachine::<B>::source_from(&counts2);
